@@ -201,6 +201,10 @@ pub struct HCase {
     /// `get_section_mut` / `get_sourcemap_mut`; the index is what gets serialised
     pub in_index: bool,
     pub ops: Vec<HOp>,
+    /// `Some`: the object is a Hermes map with these function maps (decoded from a document) and the
+    /// ops reach its `SourceMap` part through `DerefMut`
+    #[serde(default)]
+    pub fb: Option<Vec<Option<Vec<FbMap>>>>,
 }
 
 fn pool_string() -> BoxedStrategy<String> {
@@ -230,9 +234,14 @@ fn hop_strategy() -> BoxedStrategy<HOp> {
 }
 
 pub fn living(_t: Tier) -> BoxedStrategy<HCase> {
-    (small_mm(12), any::<bool>(), proptest::collection::vec(hop_strategy(), 1..9))
-        .prop_map(|(base, in_index, ops)| HCase { base, in_index, ops })
-        .boxed()
+    let p = MMParams { max_tokens: 12, ranges: false, max_sources: 3, max_names: 3, big_lines: false, distinct_strings: false, edge_values: false };
+    prop_oneof![
+        3 => (small_mm(12), any::<bool>(), proptest::collection::vec(hop_strategy(), 1..9))
+            .prop_map(|(base, in_index, ops)| HCase { base, in_index, ops, fb: None }),
+        1 => (hermes_strategy(p), any::<bool>(), proptest::collection::vec(hop_strategy(), 1..9))
+            .prop_map(|(h, in_index, ops)| HCase { base: h.map, in_index, ops, fb: Some(h.fb) }),
+    ]
+    .boxed()
 }
 
 fn inner_mut(obj: &mut sourcemap::DecodedMap) -> &mut sourcemap::SourceMap {
@@ -240,21 +249,26 @@ fn inner_mut(obj: &mut sourcemap::DecodedMap) -> &mut sourcemap::SourceMap {
         sourcemap::DecodedMap::Regular(sm) => sm,
         sourcemap::DecodedMap::Index(idx) => match idx.get_section_mut(0).and_then(|s| s.get_sourcemap_mut()) {
             Some(sourcemap::DecodedMap::Regular(sm)) => sm,
-            _ => unreachable!("the harness put a regular map into section 0"),
+            Some(sourcemap::DecodedMap::Hermes(h)) => h,
+            _ => unreachable!("the harness put a regular or Hermes map into section 0"),
         },
-        sourcemap::DecodedMap::Hermes(_) => unreachable!(),
+        sourcemap::DecodedMap::Hermes(h) => h,
     }
 }
 
 pub fn build_living(c: &HCase) -> Result<sourcemap::DecodedMap, String> {
-    let sm = c.base.build().map_err(|e| format!("building the model failed: {e}"))?;
+    let inner = match &c.fb {
+        None => sourcemap::DecodedMap::Regular(c.base.build().map_err(|e| format!("building the model failed: {e}"))?),
+        Some(fb) => {
+            let mut map = c.base.clone();
+            map.route = Route::Doc;
+            sourcemap::DecodedMap::Hermes((MHermes { map, fb: fb.clone() }).build()?)
+        }
+    };
     Ok(if c.in_index {
-        sourcemap::DecodedMap::Index(sourcemap::SourceMapIndex::new(
-            Some("bundle.js".into()),
-            vec![sourcemap::SourceMapSection::new((0, 0), None, Some(sourcemap::DecodedMap::Regular(sm)))],
-        ))
+        sourcemap::DecodedMap::Index(sourcemap::SourceMapIndex::new(Some("bundle.js".into()), vec![sourcemap::SourceMapSection::new((0, 0), None, Some(inner))]))
     } else {
-        sourcemap::DecodedMap::Regular(sm)
+        inner
     })
 }
 
@@ -330,6 +344,7 @@ fn check_living(c: &HCase, obs: &mut Obs) -> Verdict {
         Err(e) => return Verdict::Fail(e),
     };
     obs.class(if c.in_index { "object-inside-index-section" } else { "object-top-level" });
+    obs.class_if(c.fb.is_some(), "object-is-a-hermes-map(ops through DerefMut)");
     let verify = |obj: &sourcemap::DecodedMap, when: &str| -> Result<(), String> {
         let bytes = ser(obj).map_err(|e| format!("{when}: {e}"))?;
         let v: Value = serde_json::from_slice(&bytes).map_err(|e| format!("{when}: serialised form is not JSON: {e}"))?;
